@@ -132,6 +132,15 @@ class LabReplay:
 
     # ---- executing one event ----------------------------------------------------------------------------
     def arg(self, objs, n, r):
+        sl = self.arg0(objs, n, r)
+        if isinstance(sl, self.pp.PlateSlicer):
+            # every other slice is looked at before it is used, as a user inspecting it would (cached views must not matter)
+            self.looked = not getattr(self, "looked", False)
+            if self.looked:
+                sl.shape, sl.size, sl.get()
+        return sl
+
+    def arg0(self, objs, n, r):
         if r in ("-", "plate"):
             return objs[n]
         ast = self.regions[r]
